@@ -129,14 +129,19 @@ class Driver(object):
         self.etab = _event_tables()
         events.subscribe(events.ProcessStateEvent, self._on_pstate)
         events.subscribe(events.SupervisorStateChangeEvent, self._on_sstate)
-        for cfg in gcfgs:
-            self.sup.add_process_group(cfg)
-        self.procs = []
-        for i in range(len(self.pcfgs)):
-            g = self.script['procs'][i]['group']
-            self.procs.append(self.sup.process_groups['g%d' % g].processes['p%d' % i])
+        for g, cfg in enumerate(gcfgs):
+            if self.script['groups'][g].get('initial', 1):
+                self.sup.add_process_group(cfg)
+        self.procs = [None] * len(self.pcfgs)
+        self._bind_procs()
         self.kernel.fork_owner = self._fork_owner
         self.rpc = rpcinterface.SupervisorNamespaceRPCInterface(self.sup)
+
+    def _bind_procs(self):
+        for i in range(len(self.pcfgs)):
+            g = self.script['procs'][i]['group']
+            grp = self.sup.process_groups.get('g%d' % g)
+            self.procs[i] = grp.processes['p%d' % i] if grp is not None else None
 
     # ---------------------------------------------------------- observers
     def _owner_from_stack(self):
@@ -192,7 +197,7 @@ class Driver(object):
     def snapshot(self):
         k = self.kernel
         return {
-            'procs': [(p.get_state(), p.pid) for p in self.procs],
+            'procs': [((p.get_state(), p.pid) if p is not None else (0, 0)) for p in self.procs],
             'live': list(k.live), 'zombies': [z[0] for z in k.zombies],
             'hist': sorted(self.options.pidhistory.keys()), 'mood': self.options.mood,
         }
@@ -279,6 +284,14 @@ class Driver(object):
                 if not self._poll_deferred(req, cb):
                     keep.append((req, cb))
             self.pending = keep + self.pending
+        elif kind in ('addgroup', 'removegroup'):
+            # configuration RPCs on groups that are in the parsed configuration but not (or no longer) active;
+            # scripts using them are outside the Coq lifecycle model and are judged by the monitors only
+            req, g = a[2], a[1]
+            k.trace.append(('req', req, kind, g, -1))
+            fn = self.rpc.addProcessGroup if kind == 'addgroup' else self.rpc.removeProcessGroup
+            self._call(req, fn, 'g%d' % g)
+            self._bind_procs()
         elif kind == 'rpc':
             req, what = a[1], a[2]
             k.trace.append(('req', req, what, a[3] if len(a) > 3 else -1, a[4] if len(a) > 4 else -1))   # marker
